@@ -56,10 +56,10 @@ func sprinkle(t *rapid.T, label string, s []uint16, unknown []uint16) []uint16 {
 }
 
 type HelloOpts struct {
-	Proto       string // "h2", "h1", "none", "" = draw
-	AllowNoExt  bool
-	SNILen      int // >0: force this SNI length
-	ForceTLS12  bool
+	Proto      string // "h2", "h1", "none", "" = draw
+	AllowNoExt bool
+	SNILen     int // >0: force this SNI length
+	ForceTLS12 bool
 }
 
 // extension types neither crypto/tls nor utls knows
